@@ -164,6 +164,11 @@ def _gen_cases(tier, seed):
             if N >= 2:
                 for _ in range(9):
                     yield C(w="innerprod", shape=list(shp), ka="tensor", kb="tensor", fill="all", fillB="all")
+    # sparse operands with thousands of stored entries on both sides (any chunking of the subscript look-up must be invisible)
+    for shp in ([21, 20, 21],) if tier == "quick" else ([21, 20, 21], [95, 96], [12, 12, 12, 6]):
+        yield C(w="innerprod", shape=list(shp), ka="sptensor", kb="sptensor", fill="half+", fillB="half+")
+        yield C(w="scale", shape=list(shp), dims=list(range(len(shp))), fkind="sptensor", fill="half+")
+        yield C(w="scale", shape=list(shp), dims=[0, 1], fkind="sptensor", fill="half+")
     # contract / collapse / scale / mask
     for N in range(2, 5):
         for shp0 in pool[N]:
@@ -172,13 +177,13 @@ def _gen_cases(tier, seed):
                 shp[j] = shp[i]
                 for fill in ("none", "one", "half-", "half+", "all"):
                     yield C(w="contract", shape=shp, i=i, j=j, fill=fill)
-    reducers = ["sum", "npsum", "max", "min", "prod", "sumsq"]
+    reducers = ["sum", "npsum", "max", "min", "prod", "sumsq", "mean", "halfsum", "rms"]
     for N in range(1, maxN + 1):
         for shp in pool[N]:
             for sub in gen.nonempty_subsets(N) + [None]:
                 red = reducers[int(rng.integers(0, len(reducers)))]
                 for fill in ("none", "one", "half-", "all"):
-                    yield C(w="collapse", shape=list(shp), dims=sub, red=red, fill=fill)
+                    yield C(w="collapse", shape=list(shp), dims=sub, red=red, fill=fill, vtype=["float", "float", "int64", "int32", "uint8"][int(rng.integers(0, 5))])
             for sub in gen.nonempty_subsets(N):
                 for fk in ("ndarray", "tensor", "sptensor"):
                     yield C(w="scale", shape=list(shp), dims=sub, fkind=fk, fill=FILLS[int(rng.integers(0, 5))])
@@ -302,7 +307,7 @@ def _try(ctx, op, fn, *args, _feat=None, **kw):
 def gen_cases(tier, seed):
     # dense-holder history: every third case reaches its dense operand by growth (subtensor assignment past the extent) instead of the constructor
     for i, case in enumerate(_gen_cases(tier, seed)):
-        case["hist"] = "grown" if (i + int(seed)) % 3 == 1 else "ctor"
+        case["hist"] = "grown" if (i + int(seed)) % 3 == 1 and int(np.prod(case.get("shape", [1]))) <= 2000 else "ctor"
         yield case
 
 
@@ -481,12 +486,20 @@ def _w_contract(case, ctx, rng, shape, N):
 
 def _reducers(name):
     return {"sum": sum, "npsum": np.sum, "max": np.max, "min": np.min, "prod": np.prod,
-            "sumsq": (lambda v: float(np.sum(np.asarray(v) ** 2)))}[name]
+            "sumsq": (lambda v: float(np.sum(np.asarray(v) ** 2))), "mean": np.mean, "halfsum": (lambda v: 0.5 * float(np.sum(v))),
+            "rms": (lambda v: float(np.sqrt(np.mean(np.asarray(v, dtype=float) ** 2))))}[name]
 
 
 def _w_collapse(case, ctx, rng, shape, N):
     A, H = _ground(case, rng, shape, base="dense")
     dims, red = case["dims"], case["red"]
+    vt = case.get("vtype", "float")
+    if vt != "float":
+        # the same kind of data held in an integer element type: a reducer's value is whatever the reducer returns (fractions included)
+        Ai = np.round(np.abs(A) * 3.0 if vt == "uint8" else A * 3.0).astype(vt)
+        A = Ai.astype(float)
+        H = dict(H, tensor=ttb.tensor(Ai.copy()))
+    ctx.feat(vtype=vt)
     fun = _reducers(red)
     sel = list(range(N)) if dims is None else dims
     ctx.feat(nnzc=_nnzc(A), red=red, all_modes=(len(sel) == N), default_dims=(dims is None), nrem=N - len(sel))
@@ -497,7 +510,7 @@ def _w_collapse(case, ctx, rng, shape, N):
         _compare(ctx, "tensor.collapse", r, want, "tensor")
     # sparse holder: reducers are applied to stored values; judged where implicit zeros are neutral for the reducer
     As = np.abs(A) if red == "max" else (-np.abs(A) if red == "min" else A)
-    if red == "prod":
+    if red in ("prod", "mean", "rms"):
         return
     if int(np.count_nonzero(As)) == 0 and red in ("max", "min"):
         return  # reducer over an empty value list is undefined for max/min
